@@ -31,7 +31,7 @@ def run_valgrind(pid, tier, seed, cfg, env_for, known, excludes, BUILD, REPO, rd
         cmd = ["valgrind", "-q", "--error-exitcode=0", "--undef-value-errors=yes", "--leak-check=no", "--trace-children=no",
                "--suppressions=world/valgrind.supp",
                "%s/plain/vfprop" % BUILD, "run", pid, "--cases", str(vc["cases"]), "--size", str(vc.get("size", 60)), "--seed", str(wseed),
-               "--out", statf, "--replays", rdir, "--max-shrinks", "120"]
+               "--out", statf, "--replays", rdir, "--max-shrinks", "25"]
         if excludes:
             cmd += ["--exclude", ",".join(excludes)]
         lf = open("%s/w%d.log" % (outdir, w), "w")
